@@ -6,6 +6,7 @@ package peersim
 // handed to simconn in chunks.
 
 import (
+	"fmt"
 	"bytes"
 	"encoding/binary"
 	"time"
@@ -48,10 +49,11 @@ const (
 	appHeaders
 	appNotFound
 	appPong
+	appReject
 	nAppKinds
 )
 
-var appCmd = [...]string{"ping", "inv", "getdata", "addr", "getaddr", "tx", "headers", "notfound", "pong"}
+var appCmd = [...]string{"ping", "inv", "getdata", "addr", "getaddr", "tx", "headers", "notfound", "pong", "reject"}
 
 type item struct {
 	kind itemKind
@@ -203,9 +205,12 @@ func (rm *remote) genVersion(c simkit.Chooser, forceGood bool) *item {
 
 func (rm *remote) genApp(c simkit.Chooser, pv uint32) *item {
 	it := &item{kind: itApp}
-	it.app = simkit.Pick(c, "app", 6, 4, 3, 2, 2, 2, 1, 1, 1)
+	it.app = simkit.Pick(c, "app", 6, 4, 3, 2, 2, 2, 1, 1, 1, 2)
 	if it.app == appPong && pv <= 60000 {
 		it.app = appInv
+	}
+	if it.app == appReject && pv < 70002 {
+		it.app = appInv // (reject messages exist from protocol version 70002 on)
 	}
 	copy(it.token[:], c.Bytes(32, "apptok"))
 	it.token[31] |= 0x80 // never equal to a caller token (those have the top bit clear)
@@ -436,6 +441,14 @@ func appPayload(it *item, pv uint32) []byte {
 		return o
 	case appHeaders:
 		return []byte{0}
+	case appReject:
+		// the remote did not like a transaction of ours; the reason carries
+		// characters a log must not reproduce
+		reason := fmt.Sprintf("<b>bad&%x\x00\x1b[2J", it.token[:6+int(it.token[1]%40)%26])
+		o := []byte{2, 't', 'x', 0x10 + it.token[0]&3, byte(len(reason))}
+		o = append(o, reason...)
+		o = append(o, it.token[:]...)
+		return o
 	}
 	return nil
 }
